@@ -43,7 +43,7 @@ func (c *Check) RequireFact(fn *ssa.Function, rule, name, pattern string, target
 	}
 	avoid := map[edgeKey]bool{}
 	for _, e := range edges {
-		avoid[edgeKey{e.Block, e.Idx}] = true
+		avoid[e.Key()] = true
 	}
 	ps := &PathSearch{Fn: fn, AvoidEdges: avoid, IsTarget: target}
 	if t, path := ps.Find(); t != nil {
@@ -187,4 +187,24 @@ func patLE(a, b string) string {
 // patLT: the fact a < b (also written a+1 <= b).
 func patLT(a, b string) string {
 	return `^\(` + regexp.QuoteMeta(a) + ` < ` + regexp.QuoteMeta(b) + `\)$|^\(\(1 \+ ` + regexp.QuoteMeta(a) + `\) <= ` + regexp.QuoteMeta(b) + `\)$`
+}
+
+// patPositive: the fact v > 0 in any of its spellings.
+func patPositive(v string) string {
+	q := regexp.QuoteMeta(v)
+	return `^\(0 < ` + q + `\)$|^\(1 <= ` + q + `\)$|^\(0 != ` + q + `\)$|^\(` + q + ` != 0\)$`
+}
+
+// necessaryFacts: the edge facts that every path from entry to target must take
+// (deleting that single edge disconnects the target).
+func (p *Prog) necessaryFacts(fn *ssa.Function, target ssa.Instruction) []EdgeFact {
+	var out []EdgeFact
+	isT := func(in ssa.Instruction) bool { return in == target }
+	for _, ef := range p.EdgeFacts(fn) {
+		ps := &PathSearch{Fn: fn, AvoidEdges: map[edgeKey]bool{ef.Key(): true}, IsTarget: isT}
+		if t, _ := ps.Find(); t == nil {
+			out = append(out, ef)
+		}
+	}
+	return out
 }
